@@ -441,11 +441,21 @@ Definition kind_of_stype (st : N) : N := if st =? 1 then 0 else if st =? 2 then 
 
 Definition wf_def (d : rdef) : bool := wf_headers (rd_headers d) && wf_headers (rd_trailers d).
 
+(* service.proto: the response definition and full_duplex are read from the FIRST message of a stream only
+   ("should be ignored in subsequent messages"): later messages may carry any definition (with well-formed
+   metadata) and any full_duplex flag *)
+Definition first_full_ok (tc : tcase) : bool :=
+  match t_requests tc with
+  | [] => true
+  | r :: _ => Bool.eqb (rq_full r) (t_stype tc =? 5)
+  end.
+
 Definition wf (tc : tcase) : bool :=
   expandable tc && negb (is_nil (t_name tc))
   && wf_headers (t_reqheaders tc)
-  && forallb (fun r => (rq_kind r =? kind_of_stype (t_stype tc)) && Bool.eqb (rq_full r) (t_stype tc =? 5)
+  && forallb (fun r => (rq_kind r =? kind_of_stype (t_stype tc))
                        && match rq_def r with Some d => wf_def d | None => true end) (t_requests tc)
+  && first_full_ok tc
   && (if (t_stype tc =? 1) || (t_stype tc =? 3) then Nat.eqb (length (t_requests tc)) 1 else true).
 
 (* full-duplex stream, several requests, no response data, an error: the generator's expectation lists every
@@ -525,11 +535,9 @@ Definition un_tcase (s : sx) : option tcase :=
   | _ => None
   end.
 
+(* every name any request's definition declares (only the first request's definition may show up) *)
 Definition rsp_names (tc : tcase) : list bytes :=
-  match t_requests tc with
-  | r :: _ => map lname (def_headers (rq_def r)) ++ map lname (def_trailers (rq_def r))
-  | [] => []
-  end.
+  flat_map (fun r => map lname (def_headers (rq_def r)) ++ map lname (def_trailers (rq_def r))) (t_requests tc).
 Definition req_names (tc : tcase) : list bytes := map lname (t_reqheaders tc).
 
 Definition sort_by_name (l : list (bytes * sx)) : list (bytes * sx) :=
